@@ -110,43 +110,65 @@ def toNat? (b : Bytes) : Option Nat :=
   let t := (b.dropWhile isSpace).reverse.dropWhile isSpace |>.reverse
   if t.isEmpty || !t.all isDig then none else some (t.foldl (fun a d => a * 10 + (d.toNat - 48)) 0)
 
+/-- the destination options of docs/config.md ("carbon destination") -/
+inductive DOpt where
+  | prefix_ | notPrefix | sub | notSub | regex | notRegex | flush | reconn | pickle | spool | connbuf | iobuf
+  | spoolbuf | maxbytes | syncevery | syncperiod | spoolsleep | unspoolsleep
+  deriving DecidableEq, Repr
+
+inductive DKind | word | num | bool deriving DecidableEq, Repr
+inductive DVal | w (b : Bytes) | n (k : Nat) | b (x : Bool)
+
+/-- which option a token introduces (imperatives.go `readDestination`'s switch) -/
+def DOpt.ofTok : String → Option DOpt
+  | "optPrefix" => some .prefix_ | "optNotPrefix" => some .notPrefix | "optSub" => some .sub | "optNotSub" => some .notSub
+  | "optRegex" => some .regex | "optNotRegex" => some .notRegex | "optFlush" => some .flush | "optReconn" => some .reconn
+  | "optPickle" => some .pickle | "optSpool" => some .spool | "optConnBufSize" => some .connbuf | "optIoBufSize" => some .iobuf
+  | "optSpoolBufSize" => some .spoolbuf | "optSpoolMaxBytesPerFile" => some .maxbytes | "optSpoolSyncEvery" => some .syncevery
+  | "optSpoolSyncPeriod" => some .syncperiod | "optSpoolSleep" => some .spoolsleep | "optUnspoolSleep" => some .unspoolsleep
+  | _ => none
+
+def DOpt.kind : DOpt → DKind
+  | .prefix_ | .notPrefix | .sub | .notSub | .regex | .notRegex => .word
+  | .pickle | .spool => .bool
+  | _ => .num
+
+/-- the token that must follow an option token: a word, a number, or true/false -/
+def parseVal (k : DKind) (v : Tok) : Option DVal :=
+  match k with
+  | .word => if v.name == "word" then some (.w v.value) else none
+  | .num => if v.name == "num" then (toNat? v.value).map .n else none
+  | .bool => if v.name == "optTrue" then some (.b true) else if v.name == "optFalse" then some (.b false) else none
+
+/-- the field an option sets (units as documented: ms for flush/reconn/spoolsyncperiod, µs for the two sleeps) -/
+def DOpt.apply (o : DOpt) (x : DVal) (d : Dest) : Dest :=
+  match o, x with
+  | .prefix_, .w v => { d with prefix_ := v } | .notPrefix, .w v => { d with notPrefix := v }
+  | .sub, .w v => { d with sub := v } | .notSub, .w v => { d with notSub := v }
+  | .regex, .w v => { d with regex := v } | .notRegex, .w v => { d with notRegex := v }
+  | .flush, .n k => { d with flush := k } | .reconn, .n k => { d with reconn := k }
+  | .pickle, .b x => { d with pickle := x } | .spool, .b x => { d with spool := x }
+  | .connbuf, .n k => { d with connBufSize := k } | .iobuf, .n k => { d with ioBufSize := k }
+  | .spoolbuf, .n k => { d with spoolBufSize := k } | .maxbytes, .n k => { d with spoolMaxBytesPerFile := k }
+  | .syncevery, .n k => { d with spoolSyncEvery := k } | .syncperiod, .n k => { d with spoolSyncPeriodMs := k }
+  | .spoolsleep, .n k => { d with spoolSleepUs := k } | .unspoolsleep, .n k => { d with unspoolSleepUs := k }
+  | _, _ => d
+
+/-- one `option value` pair of a destination string -/
+def destStep (opt : String) (v : Tok) (d : Dest) : Option Dest :=
+  (DOpt.ofTok opt).bind fun o => (parseVal o.kind v).map fun x => o.apply x d
+
 /-- the option loop of `readDestination`; `none` = error -/
 def destOpts (defs : List TokDef) : Nat → Bytes → Dest → Option (Dest × Bytes)
   | 0, _, _ => none
   | fuel + 1, input, d =>
     let (t, rest) := next defs input
-    let wordArg (set : Bytes → Dest) : Option (Dest × Bytes) :=
+    if t.name == "EOF" || t.name == "sep" then some (d, rest)
+    else
       let (v, rest2) := next defs rest
-      if v.name == "word" then destOpts defs fuel rest2 (set v.value) else none
-    let numArg (set : Nat → Dest) : Option (Dest × Bytes) :=
-      let (v, rest2) := next defs rest
-      if v.name == "num" then (toNat? v.value).bind fun n => destOpts defs fuel rest2 (set n) else none
-    let boolArg (set : Bool → Dest) : Option (Dest × Bytes) :=
-      let (v, rest2) := next defs rest
-      if v.name == "optTrue" then destOpts defs fuel rest2 (set true)
-      else if v.name == "optFalse" then destOpts defs fuel rest2 (set false) else none
-    match t.name with
-    | "optPrefix" => wordArg fun v => { d with prefix_ := v }
-    | "optNotPrefix" => wordArg fun v => { d with notPrefix := v }
-    | "optSub" => wordArg fun v => { d with sub := v }
-    | "optNotSub" => wordArg fun v => { d with notSub := v }
-    | "optRegex" => wordArg fun v => { d with regex := v }
-    | "optNotRegex" => wordArg fun v => { d with notRegex := v }
-    | "optFlush" => numArg fun n => { d with flush := n }
-    | "optReconn" => numArg fun n => { d with reconn := n }
-    | "optPickle" => boolArg fun b => { d with pickle := b }
-    | "optSpool" => boolArg fun b => { d with spool := b }
-    | "optConnBufSize" => numArg fun n => { d with connBufSize := n }
-    | "optIoBufSize" => numArg fun n => { d with ioBufSize := n }
-    | "optSpoolBufSize" => numArg fun n => { d with spoolBufSize := n }
-    | "optSpoolMaxBytesPerFile" => numArg fun n => { d with spoolMaxBytesPerFile := n }
-    | "optSpoolSyncEvery" => numArg fun n => { d with spoolSyncEvery := n }
-    | "optSpoolSyncPeriod" => numArg fun n => { d with spoolSyncPeriodMs := n }
-    | "optSpoolSleep" => numArg fun n => { d with spoolSleepUs := n }
-    | "optUnspoolSleep" => numArg fun n => { d with unspoolSleepUs := n }
-    | "EOF" => some (d, rest)
-    | "sep" => some (d, rest)
-    | _ => none
+      match destStep t.name v d with
+      | some d' => destOpts defs fuel rest2 d'
+      | none => none
 
 /-- `readDestination(s, table, allowMatcher, routeKey)` on one destination string -/
 def readDestination (defs : List TokDef) (allowMatcher : Bool) (input : Bytes) : Option (Dest × Bytes) :=
